@@ -1,7 +1,7 @@
 (* C03 — version parsing, normalisation and ordering follow PEP 440.
    Statements only; every proof is [exact lemma].  Model: Model/Pep440.v; reference: Spec/Pep440Spec.v. *)
 From Coq Require Import List Bool NArith String.
-From PC Require Import Base.Cmp Model.Pep440 Spec.Pep440Spec Proofs.Pep440Order Proofs.Pep440Parse.
+From PC Require Import Base.Cmp Model.Pep440 Spec.Pep440Spec Proofs.Pep440Order Proofs.Pep440Parse Proofs.Pep440RoundTrip.
 Import ListNotations.
 Open Scope N_scope.
 
@@ -77,4 +77,26 @@ Print Assumptions C03_normal_form.
 Example C03_example :
   exists v, parse "1!2.0.0RC-3.post4.dev5+Ubuntu_01" = Some v /\ wf v = true /\
             to_string v = "1!2.0.0rc3.post4.dev5+ubuntu.1"%string.
+Proof. eexists. split; [vm_compute; reflexivity|]. split; vm_compute; reflexivity. Qed.
+
+(* the normalised text re-parses to the same version: every field is recovered, for every version the parser can
+   return (and for every hand-built version that is [printable]: well-formed, alphabetic local segments in lower-case
+   alphanumerics and not all digits).  The matcher is followed through the printed text: at every optional group of
+   VERSION_PATTERN the first alternative the regex engine tries is the right one. *)
+Theorem C03_text_roundtrip : forall v, printable v = true ->
+  parse (to_string v) = Some (mkV (epoch v) (rel v) (pre v) (post v) (dev v) (local v) (to_string v)).
+Proof. exact roundtrip. Qed.
+Print Assumptions C03_text_roundtrip.
+Theorem C03_parsed_is_printable : forall s v, parse s = Some v -> printable v = true.
+Proof. exact parse_printable. Qed.
+Print Assumptions C03_parsed_is_printable.
+Theorem C03_normalised_text_reparses_equal : forall s v, parse s = Some v ->
+  exists v', parse (to_string v) = Some v' /\ veqb v v' = true /\ vkey v' = vkey v /\
+             to_string v' = to_string v /\ text v' = to_string v.
+Proof. exact normalise_reparse. Qed.
+Print Assumptions C03_normalised_text_reparses_equal.
+Example C03_roundtrip_example :
+  exists v, parse "1!2.0.0RC-3.post4.dev5+Ubuntu_01" = Some v /\ printable v = true /\
+            parse (to_string v) = Some (mkV 1 [2; 0; 0] (Some (mkTag PRC 3)) (Some (mkTag PPost 4)) (Some (mkTag PDev 5))
+                                            (Some [LStr "ubuntu"; LNum 1]) "1!2.0.0rc3.post4.dev5+ubuntu.1").
 Proof. eexists. split; [vm_compute; reflexivity|]. split; vm_compute; reflexivity. Qed.
